@@ -10,6 +10,7 @@ import (
 
 	"verif/checks/pj"
 	"verif/engine/core"
+	"verif/ref/poolpoison"
 )
 
 // Protobuf half: source message type From (method input), target type To (method output) of one
@@ -515,6 +516,9 @@ func runProto(e pedit, n int, blobBytes int) core.Result {
 				v := pgeneric.NewRootValue(from, append([]byte{}, in...))
 				out, err = v.MarshalTo(to, &pgeneric.Options{UseNativeSkip: native, DisallowUnknown: disallow})
 			})
+			if pi == nil && err == nil && poolpoison.Aliased(out) {
+				r.Add("proto.Value.MarshalTo|"+trig+"|result-aliases-pooled-buffer", "%s: the %d bytes returned by MarshalTo change when the pooled buffers are overwritten", what, len(out))
+			}
 			switch {
 			case pi != nil:
 				r.Add("proto.Value.MarshalTo|"+trig+"|panic@"+pi.Site+":"+core.PanicClass(pi.Val), "%s: panic %s\n%s", what, pi.Val, pi.Stack)
